@@ -369,6 +369,10 @@ func genVsqlScenario(r *kit.Rng) *Scenario {
 			sort.Strings(rd.Fields)
 		}
 		sort.Strings(rd.Ops)
+		if r.Chance(1, 5) { // ALL / ALL(columns) ON TABLE
+			rd.Kind += "all"
+			rd.Ops = nil
+		}
 		return rd
 	}
 	for wi, wn := range shuffled(r, []string{"wa", "wb", "wc"})[:nws] {
@@ -390,7 +394,7 @@ func genVsqlScenario(r *kit.Rng) *Scenario {
 		}
 		var gg, rr []RuleD
 		for k := 0; k < r.Intn(5); k++ {
-			if rd := rule(wn); rd.Kind == "grant" {
+			if rd := rule(wn); rd.Kind == "grant" || rd.Kind == "grantall" {
 				gg = append(gg, rd)
 			} else {
 				rr = append(rr, rd)
@@ -408,7 +412,7 @@ func genVsqlScenario(r *kit.Rng) *Scenario {
 			a.Rules = append(a.Rules, rd)
 			if r.Chance(1, 2) { // the opposite, then the same again
 				o := rd
-				o.Kind = map[string]string{"grant": "revoke", "revoke": "grant"}[rd.Kind]
+				o.Kind = map[string]string{"grant": "revoke", "revoke": "grant", "grantall": "revokeall", "revokeall": "grantall"}[rd.Kind]
 				a.Rules = append(a.Rules, o, rd)
 			}
 		}
